@@ -28,6 +28,14 @@ pub(crate) fn translate_block(
     address: u64,
     options: &Options,
 ) -> Result<BlockTranslationResult, Error> {
+    // instruction and successor addresses are computed with plain additions:
+    // refuse a block that reaches the end of the 64-bit address space
+    if address.checked_add(bytes.len() as u64 + 16).is_none() {
+        return Err(Error::Custom(
+            "block wraps around the end of the address space".to_string(),
+        ));
+    }
+
     let cs = match mode {
         Mode::X86 => capstone::Capstone::new(capstone::cs_arch::CS_ARCH_X86, capstone::CS_MODE_32),
         Mode::Amd64 => {
